@@ -101,6 +101,18 @@ theorem nextPow2_spec (s : Nat) (h1 : 1 ≤ s) (h2 : s ≤ 2 ^ 31) :
     unfold W32
     omega
 
+theorem nextPow2_zero : nextPow2 0 = 0 := by decide
+
+/-- Above 2^31 the rounding wraps to zero. -/
+theorem nextPow2_big (s : Nat) (h1 : 2 ^ 31 < s) (h2 : s < 2 ^ 32) : nextPow2 s = 0 := by
+  have e : (s + W32 - 1) % W32 = s - 1 := by unfold W32; omega
+  have hs : nextPow2 s = (smear (s - 1) + 1) % W32 := by
+    unfold nextPow2 smear
+    simp only [e]
+  have := smeared_eq (x := s - 1) (k := 31) (by omega) (by omega) (by omega) (smeared_smear (s - 1))
+  rw [hs, this]
+  decide
+
 /-! ## modular arithmetic for power-of-two sizes -/
 
 /-- the sizes `new` produces -/
